@@ -3,6 +3,8 @@ have been observed for a 'held' verdict, and how the evidence is written."""
 from vdriver import Job, NCPU
 
 ENGINES = {
+    'h_observable': dict(tulz=['none'], setup_variants=['asan'],
+                         kind='lock-step value model for Observable<int|long|double+tolerance|float|std::string>, ASan/UBSan'),
     'h_router': dict(tulz=['router'], setup_variants=['asan'],
                      kind='routing-tree model in lock-step with SubjectRouter / ConcurrentSubjectRouter, stored keys measured through exists(), ASan/UBSan'),
     'h_subject': dict(tulz=['none'], setup_variants=['asan'],
@@ -310,3 +312,22 @@ SPECS['C13'] = dict(
     manifest=dict(engine='h_router', text='Black-box structural oracle: the stored-key set is measured through exists() over the whole finite key universe after every operation and checked against '
                   'self-consistency rules and the subscription model; deliveries after every shrink are checked against the unchanged model.',
                   note=SAN_NOTE, technique='runtime monitoring: measured-state invariants + reference model under ASan/UBSan'))
+
+
+# ----------------------------------------------------------------------------- Observable (C16)
+
+SPECS['C16'] = dict(
+    title='Observable notifies exactly on change, with the new value',
+    jobs=model_jobs('h_observable', 'C16', (40000, 1500000)),
+    require={'any': {'histories': 5000, 'changingOps': 100000, 'nonChangingOps': 100000, 'eqEqualButDifferentAssignments': 1000, 'subscriberCalls': 50000}},
+    evidence=lambda agg, samples, distinct, tier: cov(
+        agg.get('histories', 0), distinct,
+        'case = seeded history (1-80 operations) of =, apply, +=, -=, *=, /=, ++/-- (prefix and postfix) and subscribe/unsubscribe of 0-4 recording subscribers on Observable<int>, <long>, '
+        '<double> with a 0.5 tolerance comparator, <float> and <std::string>; a model value of the same type with the same Eq decides per operation whether every live subscriber must be called '
+        'exactly once with the post-operation value (by reference to the held value) or nobody; value() is compared bit for bit, an Eq-equal assignment must leave it untouched, and with default '
+        'equality every recording subscriber must hold value(). Values are kept where the arithmetic itself is defined. non-trivial = history with a value-changing operation; distinct = distinct histories',
+        samples, observed=pick(agg, 'histories', 'ops', 'changingOps', 'nonChangingOps', 'subscriberCalls', 'subscribes', 'unsubscribes', 'eqEqualButDifferentAssignments', 'nontrivialCases'),
+        operations=agg.get('opCount', {}), types=agg.get('types', {})),
+    assumptions=['no signed overflow, no integer division by zero, no NaN: UBSan then speaks only about tulz', 'the Observable is not moved while subscriptions exist'],
+    manifest=dict(engine='h_observable', text='Lock-step model of the held value with the same equality; the call log of recording subscribers is compared after every operation over seeded histories for '
+                  'five value types including a tolerance comparator, under ASan/UBSan.', note=SAN_NOTE, technique='runtime monitoring: lock-step reference model under ASan/UBSan'))
